@@ -29,7 +29,10 @@ import (
 	"golang.org/x/tools/go/ssa"
 )
 
+var reTraceFn = regexp.MustCompile(`\b(nstdout|nfs|ncalls|stdoutline|fskind|fspath|fsdata|callarg|callres|called|calledat|exitcode)\(`)
+
 type specExpr struct {
+	traceOnly bool // refers to the ghost effect trace of the function's own activation: checked, never assumed at call sites
 	text string
 	ast  ast.Expr
 	pkg  *types.Package
@@ -41,9 +44,11 @@ type Contract struct {
 	pkg          *types.Package
 	requires     []*specExpr
 	ensures      []*specExpr
+	exits        []*specExpr // must hold on every path that ends in os.Exit
 	decreases    *specExpr
 	loopInv      map[int][]*specExpr
 	loopDec      map[int]string
+	loopIter     map[int][]*specExpr // checked at every back edge: effects of one complete iteration
 	hasModifies  bool
 	modifiesFams []string
 	inlineOnly   bool
@@ -92,6 +97,7 @@ func loadContracts(e *Engine, dirs map[string]*types.Package) *Contracts {
 				panic(err)
 			}
 			cs.parseFile(e, f, string(b), pkg)
+			_ = pkg
 		}
 	}
 	return cs
@@ -128,7 +134,7 @@ func (cs *Contracts) parseFile(e *Engine, file, src string, pkg *types.Package) 
 		case "func":
 			key := rest
 			// qualify with the package name
-			key = qualifyKey(key, pkg.Name())
+			key = qualifyKey(key, pkgQual(pkg))
 			if existing := cs.byKey[key]; existing != nil {
 				cur = existing // several blocks for one function are merged
 			} else {
@@ -136,7 +142,7 @@ func (cs *Contracts) parseFile(e *Engine, file, src string, pkg *types.Package) 
 				cs.byKey[key] = cur
 			}
 		case "methods":
-			key := qualifyKey(rest+".", pkg.Name())
+			key := qualifyKey(rest+".", pkgQual(pkg))
 			key = strings.TrimSuffix(key, ".")
 			cur = &Contract{key: key, pkg: pkg, loopInv: map[int][]*specExpr{}, loopDec: map[int]string{}, file: file}
 			cs.methods[key] = cur
@@ -146,6 +152,8 @@ func (cs *Contracts) parseFile(e *Engine, file, src string, pkg *types.Package) 
 			cur.ensures = append(cur.ensures, mk(rest))
 		case "decreases":
 			cur.decreases = mk(rest)
+		case "exits":
+			cur.exits = append(cur.exits, mk(rest))
 		case "inline":
 			cur.inlineOnly = true
 		case "terminates-assumed":
@@ -180,13 +188,18 @@ func (cs *Contracts) parseFile(e *Engine, file, src string, pkg *types.Package) 
 				cur.loopInv[n] = append(cur.loopInv[n], mk(r3))
 			case "decreases":
 				cur.loopDec[n] = r3
+			case "iteration-ensures":
+				if cur.loopIter == nil {
+					cur.loopIter = map[int][]*specExpr{}
+				}
+				cur.loopIter[n] = append(cur.loopIter[n], mk(r3))
 			default:
 				panic(fmt.Sprintf("%s:%d: loop clause %q", file, ln+1, w2))
 			}
 		case "inv":
 			i := strings.Index(rest, ":")
 			ts := strings.TrimSpace(rest[:i])
-			ts = qualifyType(ts, pkg.Name())
+			ts = qualifyType(ts, pkgQual(pkg))
 			ti := cs.invs[ts]
 			if ti == nil {
 				ti = &typeInv{typeStr: ts}
@@ -214,6 +227,15 @@ func (cs *Contracts) parseFile(e *Engine, file, src string, pkg *types.Package) 
 			panic(fmt.Sprintf("%s:%d: unknown contract clause %q", file, ln+1, word))
 		}
 	}
+}
+
+// pkgQual: the qualifier used in function / type keys: last element of the import path.
+func pkgQual(pkg *types.Package) string {
+	p := pkg.Path()
+	if i := strings.LastIndex(p, "/"); i >= 0 {
+		return p[i+1:]
+	}
+	return p
 }
 
 func splitWord(s string) (string, string) {
@@ -365,7 +387,7 @@ func (cs *Contracts) mkExpr(text string, pkg *types.Package, file string, line i
 	if err != nil {
 		panic(fmt.Sprintf("%s:%d: cannot parse spec expression %q: %v", file, line, src, err))
 	}
-	return &specExpr{text: text, ast: x, pkg: pkg, label: label}
+	return &specExpr{text: text, ast: x, pkg: pkg, label: label, traceOnly: reTraceFn.MatchString(text)}
 }
 
 func (cs *Contracts) lookup(e *Engine, fn *ssa.Function) *Contract {
@@ -481,6 +503,7 @@ type specEnv struct {
 	bound   []*Term
 	quant   bool // inside a quantifier body: no side assumptions about bound terms
 	entryEnv *specEnv // environment of entry(e) inside loop invariants
+	iterFrom int      // iteration-ensures: index of the first trace event of the current iteration (-1: none)
 }
 
 func (e *Engine) envForFrame(s *State, f *Frame, extra map[string]specVal) *specEnv {
@@ -637,6 +660,10 @@ func (e *Engine) evalSpec(env *specEnv, x ast.Expr) specVal {
 				} else {
 					var cs []*Term
 					for i := range a.v {
+						if i >= len(b.v) || a.v[i].S != b.v[i].S {
+							cs = append(cs, False) // comparison with a missing trace value
+							continue
+						}
 						cs = append(cs, Eq(a.v[i], b.v[i]))
 					}
 					c = And(cs...)
@@ -677,6 +704,12 @@ func (e *Engine) evalSpec(env *specEnv, x ast.Expr) specVal {
 						if c, ok := obj.(*types.Const); ok {
 							return e.constSpec(c)
 						}
+					}
+				}
+				if p := e.anyPkgByName(id.Name); p != nil {
+					if gv, ok := p.Pkg.Scope().Lookup(n.Sel.Name).(*types.Var); ok {
+						pl := Place{Prefix: "global(" + e.typeKey(gv.Type()) + ":" + gv.Pkg().Name() + "." + gv.Name() + ")"}
+						return specVal{e.loadIn(env, pl, gv.Type()), gv.Type()}
 					}
 				}
 			}
@@ -743,6 +776,15 @@ func fieldIndex(st *types.Struct, name string) int {
 func (e *Engine) pkgByName(name string) *ssa.Package {
 	for _, p := range e.prog.AllPackages() {
 		if p.Pkg.Name() == name && (e.repoPkgs[p.Pkg.Path()] || p.Pkg.Path() == grammarPkg || p.Pkg.Path() == antlrPkg) {
+			return p
+		}
+	}
+	return nil
+}
+
+func (e *Engine) anyPkgByName(name string) *ssa.Package {
+	for _, p := range e.prog.AllPackages() {
+		if p.Pkg.Name() == name {
 			return p
 		}
 	}
@@ -908,6 +950,55 @@ func (e *Engine) evalSpecCall(env *specEnv, n *ast.CallExpr) specVal {
 	case "strlen":
 		a := e.evalSpec(env, n.Args[0])
 		return specVal{Value{StrLen(a.v[0])}, intT}
+	case "nstdout", "nfs", "ncalls", "stdoutline", "fskind", "fspath", "fsdata", "callarg", "callres", "exitcode", "called", "calledat":
+		return e.evalTraceSpec(env, name, n)
+	case "atcall":
+		// atcall("f", k, expr): expr evaluated in the heap as it was just before the k-th recorded call of f
+		fnm, _ := strconv.Unquote(n.Args[0].(*ast.BasicLit).Value)
+		k := int(e.evalSpec(env, n.Args[1]).v[0].I)
+		cnt := 0
+		for _, ev := range env.s.trace {
+			if ev.Kind == "call" && (ev.Note == fnm || strings.HasSuffix(ev.Note, fnm)) {
+				if cnt == k && ev.Pre != nil {
+					sub := *env
+					sub.heap = *ev.Pre
+					return e.evalSpec(&sub, n.Args[2])
+				}
+				cnt++
+			}
+		}
+		e.specFail(n, "no such recorded call")
+	case "mapstr":
+		// mapstr(ref, key): value of a map[string]string object at key (current heap)
+		a := e.evalSpec(env, n.Args[0])
+		k := e.evalSpec(env, n.Args[1])
+		addr := []*Term{a.v[0], k.v[0]}
+		has := env.s.selectIn(env.heap, "mapdom(map[string]string)", SBool, addr)
+		return specVal{Value{Ite(has, env.s.selectIn(env.heap, "mapval(map[string]string)", SStr, addr), EmptyStr)}, types.Typ[types.String]}
+	case "globaladdr":
+		// globaladdr(v): address of the package-level variable v of the contract's package
+		id := n.Args[0].(*ast.Ident).Name
+		gv, ok := env.pkg.Scope().Lookup(id).(*types.Var)
+		if !ok {
+			e.specFail(n, "not a package-level variable")
+		}
+		return specVal{Value{e.globalPlace(types.NewPointer(gv.Type()), gv.Pkg().Name(), gv.Name())}, types.NewPointer(gv.Type())}
+	case "cstring":
+		a := e.evalSpec(env, n.Args[0])
+		return specVal{Value{env.s.selectIn(env.heap, "cgo.cstring", SStr, []*Term{a.v[0]})}, types.Typ[types.String]}
+	case "gostring":
+		a := e.evalSpec(env, n.Args[0])
+		return specVal{Value{App("cgo.GoString", SStr, a.v[0])}, types.Typ[types.String]}
+	case "errmsg":
+		a := e.evalSpec(env, n.Args[0])
+		return specVal{Value{App("err.msg", SStr, a.v[0], a.v[1])}, types.Typ[types.String]}
+	case "errmsg2":
+		a := e.evalSpec(env, n.Args[0])
+		b := e.evalSpec(env, n.Args[1])
+		return specVal{Value{App("err.msg", SStr, a.v[0], b.v[0])}, types.Typ[types.String]}
+	case "bytestr":
+		a := e.evalSpec(env, n.Args[0])
+		return specVal{Value{env.s.selectIn(env.heap, "bytesof", SStr, []*Term{a.v[0]})}, types.Typ[types.String]}
 	case "validtemplate":
 		a := e.evalSpec(env, n.Args[0])
 		if a.v[0].K == KStrLit {
@@ -1054,6 +1145,8 @@ func (e *Engine) applyContract(s *State, x ssa.CallInstruction, fn *ssa.Function
 			fams = append(fams, f)
 		}
 	}
+	preHeap := s.heap.clone()
+	e.pendingPre = &preHeap
 	if len(fams) > 0 && !(ct.framed && len(ct.frameExcept) == 0) && s.currentMapLoop() != nil {
 		e.detOblige(s, x, "callee-effects", func(ren, memo map[*Term]*Term) *Term { return False })
 	}
@@ -1093,6 +1186,7 @@ func (e *Engine) applyContract(s *State, x ssa.CallInstruction, fn *ssa.Function
 	}
 	res := e.havocResultNamed(s, x, "ret."+e.shortFunc(fn))
 	e.bindResult(s, x, res)
+	e.recordCall(s, fn, args, res)
 	if wmpost != nil {
 		// everything the callee returns exists by the time it returns
 		rs := fn.Signature.Results()
@@ -1113,6 +1207,9 @@ func (e *Engine) applyContract(s *State, x ssa.CallInstruction, fn *ssa.Function
 		extra := e.resultBindings(fn, res)
 		post := &Frame{fn: fn, regs: map[ssa.Value]Value{}, params: args, oldHeap: pf.oldHeap, wm: wm, wmpost: wmpost}
 		for _, en := range ct.ensures {
+			if en.traceOnly {
+				continue
+			}
 			s.assume(e.evalSpecBool(s, post, en, extra))
 		}
 	}
@@ -1255,4 +1352,151 @@ func isOldOrUnknown(v Value) bool {
 		return false
 	}
 	return true
+}
+
+
+// evalTraceSpec: queries over the ghost effect trace of the current path.
+//   nstdout(), stdoutline(i)                         lines written to standard output
+//   nfs(), fskind(i), fspath(i), fsdata(i)           file-system effects (writefile/create/filewrite/mkdir)
+//   ncalls("f"), callarg("f", k, i), callres("f", k, i)   calls made through a contract or to an external
+//   called("f", a0, a1, ...)                         some call of f had exactly these leading (flattened) arguments
+//   exitcode()                                       status passed to os.Exit (exits clauses)
+func (e *Engine) evalTraceSpec(env *specEnv, name string, n *ast.CallExpr) specVal {
+	intT := types.Typ[types.Int]
+	strT := types.Typ[types.String]
+	boolT := types.Typ[types.Bool]
+	tr := env.s.trace
+	if env.iterFrom > 0 && env.iterFrom <= len(tr) {
+		tr = tr[env.iterFrom:]
+	}
+	var std, fs []Event
+	for _, ev := range tr {
+		switch ev.Kind {
+		case "stdout":
+			std = append(std, ev)
+		case "writefile", "create", "filewrite", "mkdir":
+			fs = append(fs, ev)
+		}
+	}
+	constInt := func(x ast.Expr) int {
+		v := e.evalSpec(env, x)
+		if v.v[0].K != KInt {
+			e.specFail(n, "trace index must be a constant")
+		}
+		return int(v.v[0].I)
+	}
+	fname := func(x ast.Expr) string {
+		lit, ok := x.(*ast.BasicLit)
+		if !ok {
+			e.specFail(n, "function name must be a string literal")
+		}
+		sv, _ := strconv.Unquote(lit.Value)
+		return sv
+	}
+	calls := func(f string) []Event {
+		var out []Event
+		for _, ev := range tr {
+			if ev.Kind == "call" && (ev.Note == f || strings.HasSuffix(ev.Note, f)) {
+				out = append(out, ev)
+			}
+		}
+		return out
+	}
+	switch name {
+	case "nstdout":
+		return specVal{Value{Int(int64(len(std)))}, intT}
+	case "nfs":
+		return specVal{Value{Int(int64(len(fs)))}, intT}
+	case "stdoutline":
+		i := constInt(n.Args[0])
+		if i >= len(std) {
+			return specVal{Value{App("trace.nostdout", SStr)}, strT}
+		}
+		return specVal{Value{std[i].Args[0]}, strT}
+	case "fskind":
+		i := constInt(n.Args[0])
+		if i >= len(fs) {
+			return specVal{Value{Str("<none>")}, strT}
+		}
+		return specVal{Value{Str(fs[i].Kind)}, strT}
+	case "fspath":
+		i := constInt(n.Args[0])
+		if i >= len(fs) {
+			return specVal{Value{App("trace.nofs", SStr)}, strT}
+		}
+		return specVal{Value{fs[i].Args[0]}, strT}
+	case "fsdata":
+		i := constInt(n.Args[0])
+		if i >= len(fs) || len(fs[i].Args) < 2 {
+			return specVal{Value{App("trace.nofsdata", SStr)}, strT}
+		}
+		return specVal{Value{fs[i].Args[1]}, strT}
+	case "ncalls":
+		return specVal{Value{Int(int64(len(calls(fname(n.Args[0])))))}, intT}
+	case "callarg", "callres":
+		cs := calls(fname(n.Args[0]))
+		k, i := constInt(n.Args[1]), constInt(n.Args[2])
+		if k >= len(cs) {
+			return specVal{Value{App("trace.nocall."+fname(n.Args[0]), SInt)}, intT}
+		}
+		src := cs[k].Args
+		if name == "callres" {
+			src = cs[k].Res
+		}
+		if i >= len(src) {
+			e.specFail(n, "call event has no such slot")
+		}
+		t := src[i]
+		switch t.S {
+		case SStr:
+			return specVal{Value{t}, strT}
+		case SBool:
+			return specVal{Value{t}, boolT}
+		}
+		return specVal{Value{t}, intT}
+	case "called", "calledat":
+		cs := calls(fname(n.Args[0]))
+		var want []*Term
+		rest := n.Args[1:]
+		skip := 0
+		if name == "calledat" {
+			skip = constInt(n.Args[1])
+			rest = n.Args[2:]
+		}
+		for _, a := range rest {
+			want = append(want, e.evalSpec(env, a).v...)
+		}
+		for i := range cs {
+			if len(cs[i].Args) >= skip {
+				c := cs[i]
+				c.Args = c.Args[skip:]
+				cs[i] = c
+			}
+		}
+		var ds []*Term
+		for _, c := range cs {
+			if len(c.Args) < len(want) {
+				continue
+			}
+			var eqs []*Term
+			for i, w := range want {
+				if c.Args[i].S != w.S {
+					eqs = append(eqs, False)
+					continue
+				}
+				eqs = append(eqs, Eq(c.Args[i], w))
+			}
+			ds = append(ds, And(eqs...))
+		}
+		return specVal{Value{Or(ds...)}, boolT}
+	case "exitcode":
+		for i := len(tr) - 1; i >= 0; i-- {
+			if tr[i].Kind == "exit" {
+				return specVal{Value{tr[i].Args[0]}, intT}
+			}
+		}
+		return specVal{Value{Int(-1)}, intT}
+	}
+	e.specFail(n, "unknown trace function")
+	return specVal{}
 }
